@@ -15,7 +15,8 @@ LEVEL = "exploration"
 RULE = ("random declarations (no defaults, no env) x random assignments over a hostile value pool x "
         "random renderings (long/short, ' '/'=' form, bundled toggles, permuted items, `--` placement), "
         "plus the exhaustive product value pool x 4 spellings for one option and one multi-option; "
-        "typed access on decimal texts; distinct_nontrivial = distinct (declaration, vector) pairs with "
+        "typed access on decimal texts as short, unsigned short, int, unsigned, long, long long, int64_t, unsigned long, "
+        "unsigned long long, size_t, float, double, long double, std::string (values up to 2^64-1); distinct_nontrivial = distinct (declaration, vector) pairs with "
         "at least two rendered items")
 
 VALUES = [b"", b" ", b"a b", b"=", b"a=b=c", b"=x", b"-x", b"--", b"--name", b"-", b"---", b";", b"a;b",
@@ -28,6 +29,24 @@ NUMS = [(b"0", 0), (b"7", 7), (b"007", 7), (b"+5", 5), (b"42", 42), (b"214748364
         (b"-12", -12), (b"-2147483648", -2147483648), (b"65535", 65535), (b"0100", 100), (b"012", 12),
         (b"0089", 89), (b"000042", 42), (b"-0010", -10), (b"08", 8), (b"+010", 10), (b"00", 0)]
 DOUBLES = [b"3.25", b"-0.5", b"1e3", b"0.1", b"2", b"-7.5e-3", b"+4.0", b"010.5", b"00.50", b"0017"]
+NUMS += [(b"4294967295", 4294967295), (b"4294967296", 4294967296), (b"9223372036854775807", 9223372036854775807),
+         (b"-9223372036854775808", -9223372036854775808), (b"18446744073709551615", 18446744073709551615),
+         (b"32767", 32767), (b"-32768", -32768), (b"32768", 32768), (b"2147483648", 2147483648),
+         (b"-2147483649", -2147483649), (b"0065535", 65535)]
+FLOATS = [b"3.25", b"-0.5", b"1e3", b"2", b"+4.0", b"010.5", b"00.50", b"0017", b"16777216", b"-0.125"]   # exact as float
+RANGES = {"short": (-2 ** 15, 2 ** 15 - 1), "ushort": (0, 2 ** 16 - 1), "int": (-2 ** 31, 2 ** 31 - 1),
+          "unsigned": (0, 2 ** 32 - 1), "long": (-2 ** 63, 2 ** 63 - 1), "llong": (-2 ** 63, 2 ** 63 - 1),
+          "int64": (-2 ** 63, 2 ** 63 - 1), "ulong": (0, 2 ** 64 - 1), "ullong": (0, 2 ** 64 - 1),
+          "size_t": (0, 2 ** 64 - 1)}
+
+
+def _constructible(t):
+    return not t.startswith(b"-") or t == b"--" or (len(t) > 1 and t[1:2] not in (b"-", b"=")) or \
+        (t.startswith(b"--") and len(t) > 2 and t[2:3] not in (b"-", b"="))
+
+
+def _int_types(num):
+    return sorted(t for t, (lo, hi) in RANGES.items() if lo <= num <= hi)
 
 
 def vclass(v):
@@ -168,22 +187,29 @@ def _assignment(rng, d, typed, scale=False):
             if typed and rng.random() < 0.4:
                 if rng.random() < 0.6:
                     txt, num = rng.choice(NUMS)
-                    ty = rng.choice(["int", "long", "llong"] + (["unsigned", "ulong"] if num >= 0 else []) +
-                                    (["short"] if -32768 <= num <= 32767 else []))
-                    asg["typed"].append(["o", o["name"], 0, ty, txt])
-                else:
+                    asg["typed"].append(["o", o["name"], 0, rng.choice(_int_types(num)), txt])
+                elif rng.random() < 0.5:
                     txt = rng.choice(DOUBLES)
-                    asg["typed"].append(["o", o["name"], 0, "double", txt])
+                    asg["typed"].append(["o", o["name"], 0, rng.choice(["double", "ldouble"]), txt])
+                else:
+                    txt = rng.choice(FLOATS)
+                    asg["typed"].append(["o", o["name"], 0, "float", txt])
                 asg["o"][o["name"]] = txt
             else:
                 asg["o"][o["name"]] = rng.choice(VALUES)
+                if typed and rng.random() < 0.15:
+                    asg["typed"].append(["o", o["name"], 0, "string", asg["o"][o["name"]]])
         elif o["kind"] == "m" and r < 0.7:
             n = rng.randint(1, 4)
             vs = []
             for j in range(n):
                 if typed and rng.random() < 0.3:
                     txt, num = rng.choice(NUMS)
-                    asg["typed"].append(["m", o["name"], j, "int", txt])
+                    asg["typed"].append(["m", o["name"], j, rng.choice(_int_types(num)), txt])
+                    vs.append(txt)
+                elif typed and rng.random() < 0.1:
+                    txt = rng.choice(FLOATS)
+                    asg["typed"].append(["m", o["name"], j, rng.choice(["double", "float"]), txt])
                     vs.append(txt)
                 else:
                     vs.append(rng.choice(VALUES))
@@ -234,13 +260,17 @@ def gen(tier, seed, chunk, nch):
             # the same parser object has parsed before: nothing, or another assignment of the same declaration
             other, _ = _render(rng, d, _assignment(rng, d, typed=False))
             case["earlier"] = [rng.choice([[], other, other + [b"--nope-undeclared"]])]
+        if rng.random() < 0.3 and all(_constructible(t) for t in argv):
+            # the parse(std::vector<user_input>) overload spells the same assignment (only vectors whose tokens can
+            # be turned into user_input objects at all: a lone `-`, `---x`, `-=x` cannot, that is the caller's error)
+            case["mode"] = "V"
         cases.append(case)
     return cases
 
 
 def script(cid, case):
     actions = [("parse", "A", v) for v in case.get("earlier") or []]
-    actions.append(("parse", "A", case["argv"]))
+    actions.append(("parse", case.get("mode", "A"), case["argv"]))
     for kind, name, idx, ty, txt in case["asg"].get("typed", []):
         actions.append(("as", kind, name, idx, ty))
     text, _ = optrun.case_script(cid, case["decl"], {}, actions)
@@ -266,6 +296,7 @@ def evaluate(case, lines, S):
     d, asg, argv = case["decl"], case["asg"], case["argv"]
     for f in set(case["forms"]):
         S.counters["form:" + f] += 1
+    S.counters["overload:" + ("parse(vector<user_input>)" if case.get("mode") == "V" else "parse(argc, argv)")] += 1
     for v in list(asg["o"].values()) + [x for vs in asg["m"].values() for x in vs] + asg["pos"]:
         S.counters["value:" + vclass(v)] += 1
     if len(case["forms"]) >= 2 or case.get("exh"):
@@ -309,7 +340,12 @@ def evaluate(case, lines, S):
             continue
         got = l[5:].strip()
         try:
-            ok = (float(got) == float(txt)) if ty == "double" else (int(got) == int(txt))
+            if ty == "string":
+                ok = got == "x" + txt.hex()
+            elif ty in ("double", "float", "ldouble"):
+                ok = float(got) == float(txt)
+            else:
+                ok = int(got) == int(txt)
         except ValueError:
             ok = False
         if not ok:
